@@ -2199,7 +2199,8 @@ static bool parse_next(TokenContext &ctx, Chunk &pc, const Chunk *prev_pc)
          // Fix for issue #1752
          // Ignoring extra spaces after ' \ ' for preproc body continuations
          if (  last == '\\'             // 92
-            && ch == ' ')               // 32
+            && (  ch == ' '             // 32
+               || ch == '\t'))
          {
             ctx.get();
             continue;
